@@ -21,10 +21,13 @@ type Clause struct {
 }
 
 type Hint struct {
-	Kind string // "use" | "assert" | "assume_checked"
+	Kind string // "use" | "assert" | "set" | "setdef"
 	E    Expr
 	Src  string
 	Line int
+	// set / setdef:  L = E   |   L p :: forall x :: p[x] == body
+	L    Expr
+	Bind string
 }
 
 type LoopSpec struct {
@@ -73,9 +76,17 @@ type Contract struct {
 	Witness  []string
 	Assumes  []string // free-text assumptions echoed to evidence
 	Dispatch map[string][]string
+	PureCallbacks []string // parameter names whose calls are modelled as pure, total, uninterpreted functions
 	File     string
 	Line     int
 	Matched  bool
+}
+
+type GhostField struct {
+	PkgPath string
+	Struct  string // type name within the package
+	Field   string // "$name"
+	Sort    string
 }
 
 type PredDecl struct {
@@ -93,15 +104,16 @@ type LemmaUse struct{}
 type ContractSet struct {
 	Funcs map[string]*Contract // pkgpath + "::" + key
 	Preds map[string]*PredDecl // name (package-qualified lookups try pkg first)
+	GhostFields []*GhostField
 	Files []string
 }
 
 var reClauseLoop = regexp.MustCompile(`^loop#(\d+)\s+(invariant|decreases|use|assert)\s+(.*)$`)
-var reAt = regexp.MustCompile(`^at\s+(\S+)\s+(use|assert)\s+(.*)$`)
+var reAt = regexp.MustCompile(`^at\s+(\S+)\s+(use|assert|set|setdef)\s+(.*)$`)
 var rePred = regexp.MustCompile(`^(?:pred|fun)\s+([A-Za-z_][A-Za-z0-9_]*)\s*\((.*?)\)\s*:=\s*(.*)$`)
 
 func clauseKeyword(s string) bool {
-	for _, k := range []string{"property ", "requires ", "ensures ", "modifies ", "no_panic", "panics ", "decreases ", "loop#", "at ", "let ", "ghost ", "trusted", "inline", "noinline", "pure", "witness ", "assumes ", "dispatch "} {
+	for _, k := range []string{"property ", "requires ", "ensures ", "modifies ", "no_panic", "panics ", "decreases ", "loop#", "at ", "let ", "ghost ", "trusted", "inline", "noinline", "pure", "witness ", "assumes ", "dispatch ", "callback "} {
 		if strings.HasPrefix(s, k) {
 			return true
 		}
@@ -162,7 +174,7 @@ func (cs *ContractSet) parseFile(pkgPath, file string) error {
 		if t == "" {
 			continue
 		}
-		isStart := strings.HasPrefix(t, "func ") || strings.HasPrefix(t, "pred ") || strings.HasPrefix(t, "fun ") || strings.HasPrefix(t, "end")
+		isStart := strings.HasPrefix(t, "ghostfield ") || strings.HasPrefix(t, "func ") || strings.HasPrefix(t, "pred ") || strings.HasPrefix(t, "fun ") || strings.HasPrefix(t, "end")
 		if !isStart && !clauseKeyword(t) && len(joined) > 0 {
 			joined[len(joined)-1].text += " " + t
 			continue
@@ -189,6 +201,16 @@ func (cs *ContractSet) parseFile(pkgPath, file string) error {
 				return fail(fmt.Errorf("duplicate contract for %s", id))
 			}
 			cs.Funcs[id] = cur
+		case strings.HasPrefix(t, "ghostfield "):
+			// ghostfield Type.$name <sort>
+			rest := strings.TrimSpace(t[11:])
+			sp := strings.SplitN(rest, " ", 2)
+			dot := strings.Index(sp[0], ".$")
+			if len(sp) != 2 || dot < 0 {
+				return fail(fmt.Errorf("bad ghostfield declaration: %s", t))
+			}
+			cs.GhostFields = append(cs.GhostFields, &GhostField{PkgPath: pkgPath, Struct: sp[0][:dot], Field: sp[0][dot+1:], Sort: strings.TrimSpace(sp[1])})
+			cur = nil
 		case strings.HasPrefix(t, "pred "), strings.HasPrefix(t, "fun "):
 			m := rePred.FindStringSubmatch(t)
 			if m == nil {
@@ -291,6 +313,43 @@ func (cs *ContractSet) parseFile(pkgPath, file string) error {
 			if m == nil {
 				return fail(fmt.Errorf("bad at clause: %s", t))
 			}
+			if m[2] == "set" {
+				sp := strings.SplitN(m[3], " = ", 2)
+				if len(sp) != 2 {
+					return fail(fmt.Errorf("bad set: %s", t))
+				}
+				le, err := ParseSpec(strings.TrimSpace(sp[0]))
+				if err != nil {
+					return fail(err)
+				}
+				e, err := ParseSpec(strings.TrimSpace(sp[1]))
+				if err != nil {
+					return fail(err)
+				}
+				cur.Hints[m[1]] = append(cur.Hints[m[1]], Hint{Kind: "set", L: le, E: e, Src: m[3], Line: l.line})
+				continue
+			}
+			if m[2] == "setdef" {
+				// setdef x.$f p :: forall k T :: p[k] == body
+				sp := strings.SplitN(m[3], "::", 2)
+				if len(sp) != 2 {
+					return fail(fmt.Errorf("bad setdef: %s", t))
+				}
+				hd := strings.Fields(sp[0])
+				if len(hd) != 2 {
+					return fail(fmt.Errorf("bad setdef head: %s", sp[0]))
+				}
+				le, err := ParseSpec(hd[0])
+				if err != nil {
+					return fail(err)
+				}
+				e, err := ParseSpec(strings.TrimSpace(sp[1]))
+				if err != nil {
+					return fail(err)
+				}
+				cur.Hints[m[1]] = append(cur.Hints[m[1]], Hint{Kind: "setdef", L: le, Bind: hd[1], E: e, Src: m[3], Line: l.line})
+				continue
+			}
 			for _, part := range splitTopSemi(m[3]) {
 				e, err := ParseSpec(part)
 				if err != nil {
@@ -343,6 +402,13 @@ func (cs *ContractSet) parseFile(pkgPath, file string) error {
 			cur.Witness = append(cur.Witness, strings.TrimSpace(t[8:]))
 		case strings.HasPrefix(t, "assumes "):
 			cur.Assumes = append(cur.Assumes, strings.TrimSpace(t[8:]))
+		case strings.HasPrefix(t, "callback "):
+			fs := strings.Fields(t[9:])
+			if len(fs) != 2 || fs[1] != "pure" {
+				return fail(fmt.Errorf("expected 'callback <param> pure'"))
+			}
+			cur.PureCallbacks = append(cur.PureCallbacks, fs[0])
+			cur.Assumes = append(cur.Assumes, "callback parameter "+fs[0]+" is a pure, total, deterministic function of its arguments (no heap effects, no panic)")
 		case strings.HasPrefix(t, "dispatch "):
 			sp := strings.SplitN(t[9:], ":", 2)
 			if len(sp) != 2 {
